@@ -83,9 +83,15 @@ class VLoop(asyncio.BaseEventLoop):
         self.handles_run += 1
         prev = events._get_running_loop()
         events._set_running_loop(self)
+        # like run_forever(): async generators first iterated while this loop runs get the loop's finaliser, so one that
+        # is dropped unfinished is closed by a task the loop schedules (in a copy of the context current at that moment)
+        # and not synchronously on the spot
+        hooks = sys.get_asyncgen_hooks()
+        sys.set_asyncgen_hooks(firstiter=self._asyncgen_firstiter_hook, finalizer=self._asyncgen_finalizer_hook)
         try:
             h._run()
         finally:
+            sys.set_asyncgen_hooks(*hooks)
             events._set_running_loop(prev)
 
     def quiesce(self, limit=200000):
